@@ -863,6 +863,7 @@ func (p *parser) parseObjectProperty() *Node {
 			prop.Name = "method"
 		}
 		p.note(FeatObjectShorthand, prop.Start)
+		p.noteFunctionKind(prop.Start, async, gen)
 		prop.B = p.parseMethodFunction(async, gen)
 	case p.isP(":"):
 		p.next()
